@@ -159,6 +159,7 @@ TypeOf(x, C, P) ==
     [] e \in {"break", "iterate"} -> IF C.loop THEN ANY ELSE ERR
     [] e = "ret" -> IF Ok(C.ret) /\ Fits(TypeOf(x.v, C, P), C.ret) THEN ANY ELSE ERR
     [] e = "error" -> ANY
+    [] e = "assert" -> IF Fits(TypeOf(x.c, C, P), BOOL) THEN UNIT ELSE ERR
     \* op(args)$D: D must be a domain of a known category that exports op with these argument types;
     \* D(A) requires A to satisfy the category of D's parameter
     [] e = "dcall" ->
